@@ -451,3 +451,31 @@ def shared_object_uses(ctx: Ctx, fi: FuncInfo, roots: set[str],
         if any(q in mutators for q in callees) or not callees:
             bad.append((next(x for x in actuals if may_alias(x)), call))
     return copies, bad, aliases
+
+
+def stale_yields(ctx: Ctx, fi: FuncInfo, loop: ast.AST
+                 ) -> list[tuple[ast.AST, str]]:
+    """Yields inside ``loop`` (a per-item ``for``) whose value is a local
+    name that, on some path from the loop head of the *current* iteration to
+    the yield (exceptional edges into handlers included), has not been bound
+    in this iteration: the value of an earlier item is emitted again."""
+    cfg = ctx.cfg(fi)
+    defs = ctx.defs(fi)
+    out = []
+    for y in [n for n in ast.walk(loop) if isinstance(n, ast.Yield)]:
+        v = y.value
+        if not isinstance(v, ast.Name) or defs.is_param(v.id):
+            continue
+        # the loop's own target is fresh by construction
+        if any(isinstance(n, ast.Name) and n.id == v.id
+               for n in ast.walk(getattr(loop, "target", ast.Pass()))):
+            continue
+        binds = [b for b in defs.of(v.id)
+                 if any(x is b.stmt for x in ast.walk(loop))
+                 and cfg.has(b.stmt)]
+        yn = cfg.container(y)
+        ok = bool(binds) and yn is not None and cfg.every_path_defines(
+            cfg.node(loop), yn, [cfg.node(b.stmt) for b in binds])
+        if not ok:
+            out.append((y, v.id))
+    return out
